@@ -41,11 +41,15 @@ func FastParseFloat(val []byte) (float64, error) {
 		i++
 	}
 
+	// a number needs at least one digit in its integer or fractional part
+	sawDigit := false
+
 	var intPart float64
 	for ; i < len(val); i++ {
 		c := val[i]
 		if c >= '0' && c <= '9' {
 			intPart = intPart*10 + float64(c-'0')
+			sawDigit = true
 		} else {
 			break
 		}
@@ -61,10 +65,15 @@ func FastParseFloat(val []byte) (float64, error) {
 			if c >= '0' && c <= '9' {
 				fracPart = fracPart*10 + float64(c-'0')
 				divisor *= 10
+				sawDigit = true
 			} else {
 				break
 			}
 		}
+	}
+
+	if !sawDigit {
+		return 0, INVALID_FLOAT_ERR
 	}
 
 	result := sign * (intPart + fracPart/divisor)
